@@ -398,6 +398,9 @@ func run(r *core.Run) int {
 			return &sims.Scenario{Len: l, CAKind: "p256", Entry: []string{"validate", "validate", "validate-deprecated"}[i%3], CRLRoute: []string{"http", "fetcher"}[i%2], WithST: i%4 < 2}
 		}
 		a, b := mk(), mk()
+		if i%8 >= 4 {
+			b.WithST = !a.WithST
+		}
 		if a.Entry != "validate" {
 			a.CRLRoute, b.CRLRoute = "http", "http"
 		}
